@@ -141,6 +141,10 @@ Fixpoint run (c : config) (t_end i t : Z) (qs : list request) (st : list Z) : li
       (o :: os, st'')
   end.
 
+(* time spanned by the gaps of a request list *)
+Definition total_gap (qs : list request) : Z :=
+  fold_right (fun q a => Z.max 0 (q_gap q) + a) 0 qs.
+
 (* the decisions of the first n requests as a function of (config, stream) alone *)
 Fixpoint decisions (c : config) (n : nat) (st : list Z) : list decision * list Z :=
   match n with
